@@ -241,6 +241,21 @@ theorem offsets_exact_mem (sceneAt : J6 R → Scene R) (unchanged : J6 R → Nat
       · exact ⟨k, hk, .inr ⟨rfl, h⟩⟩
     exact ⟨(k, c), hmem, hh, rfl⟩
 
+/-- [A] where the precondition comes from: if the initial vector is collision-free (no relevant pair collides in its
+scene), the scenes have the same bodies, and a pair of bodies that both did not move has the same verdict in the candidate
+scene as in the initial one (the verdict is a function of the two poses), then `UnmovedFree` holds -/
+theorem unmovedFree_of_initial_free (sceneAt : J6 R → Scene R) (unchanged : J6 R → Nat → Bool) (own : Safety R)
+    (cons : Option (Constraints R)) (initial f t : J6 R)
+    (hbodies : ∀ c, relevantPairs (sceneAt c) = relevantPairs (sceneAt initial))
+    (hsame : ∀ kc ∈ offsetCandidates initial f t, ∀ i j,
+      unmoved (skipOf unchanged kc.1 kc.2) i = true → unmoved (skipOf unchanged kc.1 kc.2) j = true →
+      taskCollides (sceneAt kc.2) own i j = taskCollides (sceneAt initial) own i j)
+    (hfree : ∀ p ∈ relevantPairs (sceneAt initial), taskCollides (sceneAt initial) own p.1 p.2 = false) :
+    UnmovedFree sceneAt unchanged own cons initial f t := by
+  intro kc hkc _ p hp h1 h2
+  rw [hsame kc hkc p.1 p.2 h1 h2]
+  exact hfree p (by rw [← hbodies kc.2]; exact hp)
+
 /-! ### 4. Examples -/
 
 /-- the candidates for `initial = 0`, `from = 1`, `to = 2` (each in all six joints) -/
